@@ -132,7 +132,8 @@ class Pool:
         ctx = self.ctx
         e0.write_files()
         vh = ctx.need_harness()
-        cases = [{"source": prog.qml_program(p), "callback": True} for p, _ in self.programs]
+        tr = getattr(self, "transform", None) or (lambda x: x)
+        cases = [{"source": tr(prog.qml_program(p)), "callback": True} for p, _ in self.programs]
         self.sources = [c["source"] for c in cases]
         self.impl = C.harness_run(vh, "tir", cases, timeout=120)
         self.expected = [tirtok.expected_stream(r) if isinstance(r, dict) else None for r in self.impl]
